@@ -473,7 +473,7 @@ def build_master(rnd, kind, is_default, glyphs, opts, name):
                             "layout": "GPOS" in fb.font, "adv": {g: metrics[g][0] for g in order}}
 
 
-def make(rnd, kind="ttf", naxes=None, maps=True, rules=False, sparse=True, grid=False, layout=True, n_extra=None, twin=False):
+def make(rnd, kind="ttf", naxes=None, maps=True, rules=False, sparse=True, grid=False, layout=True, n_extra=None, twin=False, axis_sparse=None):
     from fontTools.designspaceLib import DesignSpaceDocument, AxisDescriptor, SourceDescriptor, RuleDescriptor
     from fontTools.ttLib import TTFont
 
@@ -488,7 +488,8 @@ def make(rnd, kind="ttf", naxes=None, maps=True, rules=False, sparse=True, grid=
             "lsb_is_xmin": rnd.random() < 0.6, "mvar": rnd.random() < 0.85,
             "sparse_adv_sentinel": rnd.random() < 0.5, "sparse_no_layout": rnd.random() < 0.5,
             "cff_subset_sparse": rnd.random() < 0.5, "mark_zero": rnd.random() < 0.7,
-            "sparse_kern": rnd.random() < 0.7, "partial_locations": rnd.random() < 0.6}
+            "sparse_kern": rnd.random() < 0.7, "partial_locations": rnd.random() < 0.6,
+            "axis_sparse": rnd.random() < 0.35}
     ds = DesignSpaceDocument()
     for a in axes:
         ad = AxisDescriptor()
@@ -506,6 +507,19 @@ def make(rnd, kind="ttf", naxes=None, maps=True, rules=False, sparse=True, grid=
         if cands:
             sparse_idx.add(rnd.choice(cands))
     full = [g for g in ORDER if rules or g != "A.alt"]
+    force_axis_sparse, axis_sparse, ends_only = axis_sparse, {}, None
+    if (opts["axis_sparse"] if force_axis_sparse is None else force_axis_sparse) and sparse and naxes >= 2:
+        a1, a2 = rnd.sample(axes, 2)
+        # B has masters everywhere along a1 only; E (and the composites built from it) only at the default and at the
+        # ends of a2, not at a2's intermediate masters: three different sub-models / region sets in one font
+        axis_sparse = {a1["tag"]: {".notdef", "B"}, a2["tag"]: {"E", "D", "Znest"}}
+        ends2 = [v for v in (a2["min"], a2["max"]) if v != a2["default"]]
+        if ends2:
+            mid = dict(default)
+            mid[a2["tag"]] = a2["default"] + 0.5 * (rnd.choice(ends2) - a2["default"])
+            if mid not in ulocs:
+                ulocs.append(mid)       # make sure a2 has an on-axis intermediate master
+        ends_only = a2["tag"]
     for i, ul in enumerate(ulocs):
         is_default = ul == default
         glyphs = list(full)
@@ -514,6 +528,16 @@ def make(rnd, kind="ttf", naxes=None, maps=True, rules=False, sparse=True, grid=
             if kind == "ttf" and rnd.random() < 0.5 and "A" in keep:
                 keep |= {"C", "acutecomb"}
             glyphs = [g for g in full if g in keep]
+        if axis_sparse and not is_default:
+            # glyphs that only have masters along one axis: absent wherever another axis is off its default
+            off = {a["tag"] for a in axes if ul[a["tag"]] != a["default"]}
+            drop = set()
+            for tag, gs in axis_sparse.items():
+                if off - {tag}:
+                    drop |= gs
+                elif tag == ends_only and any(ul[a["tag"]] not in (a["min"], a["max"], a["default"]) for a in axes if a["tag"] == tag):
+                    drop |= gs
+            glyphs = [g for g in glyphs if g not in drop]
         name = "m%d" % i
         data, info = build_master(rnd, kind, is_default, glyphs, opts, name)
         design = {a["name"]: _fwd(a, ul[a["tag"]]) for a in axes}
@@ -574,4 +598,5 @@ def make(rnd, kind="ttf", naxes=None, maps=True, rules=False, sparse=True, grid=
             rd.subs = [("A", "A.alt")]
             ds.addRule(rd)
     return {"ds": ds, "masters": masters, "axes": axes, "kind": kind, "opts": opts,
-            "marks": list(MARKS), "bases": list(BASES), "twin_axes": twin_axes}
+            "marks": list(MARKS), "bases": list(BASES), "twin_axes": twin_axes,
+            "axis_sparse": {t: sorted(gs) for t, gs in axis_sparse.items()}}
